@@ -3,8 +3,8 @@ import gen
 import vlib
 
 ID = "C18"
-LEAN_MODULES = ["NdInterp.Props.C18"]
-THEOREM_FILES = [("NdInterp/Props/C18.lean", "C18_")]
+LEAN_MODULES = ["NdInterp.Props.C18", "NdInterp.Props.FormulaTie.Ctl"]
+THEOREM_FILES = [("NdInterp/Props/C18.lean", "C18_"), ("NdInterp/Props/FormulaTie/Ctl.lean", "FT_ctl_")]
 HARNESS_BINS = ["vharness_custom"]
 RULE = ("`vharness_custom <seed> <n>`: recording / failing user strategies (declared minimum 0..4) for Interp1D and Interp2D over static and "
         "dynamic data dims; valid and invalid builder inputs (tie, swap, NaN, decreasing, wrong length +-1, single element, too few points, "
